@@ -2,6 +2,7 @@ import GoSquare.Model.Builder
 import GoSquare.Model.Nmt
 import GoSquare.Spec.Format
 import GoSquare.Spec.Layout
+import GoSquare.Model.Json
 /-! Line-protocol driver: one operation per input line, one canonical result line per operation.
     It runs the *same definitions the theorems are about* (`GoSquare.Model.*`, `GoSquare.Spec.*`).
     The Go harness (/verif/harness) runs the real code on the same lines; outputs are diffed. -/
@@ -58,6 +59,12 @@ def optStr {α} (f : α → String) : Option α → String
   | none => "err"
 
 def b2s (b : Bool) : String := if b then "1" else "0"
+
+/-- result of a canonical-fragment JSON decoder; `outside` is never compared by the harness -/
+def jresStr {α} (f : α → String) : Json.R α → String
+  | .ok v => "ok " ++ f v
+  | .err => "err"
+  | .outside => "outside"
 
 def blobStr (b : Blob) : String :=
   s!"{hex b.ns}:{b.ver}:{match b.signer with | none => "nil" | some s => hex s}:{b.data.length}:{dig b.data}"
@@ -418,6 +425,39 @@ def step (st : St) (line : String) : St × String :=
     match unhex tx, (if idx == "." then some [] else (idx.splitOn ",").mapM String.toNat?) with
     | some tx, some idx => (st, hex (marshalIndexWrapper tx idx))
     | _, _ => (st, "bad-op")
+  -- json (encoders complete; decoders on the canonical fragment, "outside" elsewhere)
+  | ["json", "b64enc", b] =>
+    match unhex b with
+    | some b => (st, hex (Json.b64Encode b))
+    | none => (st, "bad-op")
+  | ["json", "b64dec", b] =>
+    match unhex b with
+    | some b => (st, optStr hex (Json.b64Decode b))
+    | none => (st, "bad-op")
+  | ["json", "mns", b] =>
+    match unhex b with
+    | some b => (st, hex (Json.marshalNs b))
+    | none => (st, "bad-op")
+  | ["json", "uns", b] =>
+    match unhex b with
+    | some b => (st, jresStr hex (Json.unmarshalNs b))
+    | none => (st, "bad-op")
+  | ["json", "mshare", b] =>
+    match unhex b with
+    | some b => (st, dig (Json.marshalShare b))
+    | none => (st, "bad-op")
+  | ["json", "ushare", b] =>
+    match unhex b with
+    | some b => (st, jresStr dig (Json.unmarshalShare b))
+    | none => (st, "bad-op")
+  | ["json", "mblob", spec] =>
+    match parseBlobSpec spec with
+    | some (ns, ver, signer, data) => (st, hex (Json.marshalBlob { ns, data, ver, signer }))
+    | none => (st, "bad-op")
+  | ["json", "ublob", b] =>
+    match unhex b with
+    | some b => (st, jresStr blobStr (Json.unmarshalBlob b))
+    | none => (st, "bad-op")
   -- builder
   | ["b", "new", mx, thr] =>
     match mx.toNat?, thr.toNat? with
